@@ -10,7 +10,7 @@ THEOREMS = ['C14_value_is_sum_of_interval_optima', 'C14_feasible_iff_every_inter
 CFG = {'p_no_simult': 0.2, 'p_coarse': 0.0, 'p_periodic': 0.0, 'T': (4, 12), 'n_assets': (1, 4), 'nodes': (1, 3), 'p_window': 0.4, 'p_market': 0.95, 'p_wacc': 0.6,
        'freqs': ['h', 'h', '30min'], 'units': ['h', 'd', 'd', 'min'], 'p_unaligned_end': 0.2, 'tzs': [None, None, 'CET'],
        'kinds': {'SimpleContract': 3, 'Contract': 1, 'Transport': 3, 'Storage': 2, 'MultiCommodityContract': 2, 'OrderBook': 1, 'ExtendedTransport': 1}}
-SPECIAL = ('OrderBook', 'ScaledAsset', 'StructuredAsset')
+SPECIAL = ('OrderBook', 'ScaledAsset', 'StructuredAsset', 'Plant', 'CHPAsset')      # (units: every interval starts from the declared initial state - no comparison with the unsplit problem)
 
 
 def var_keys(mapping):
@@ -107,6 +107,14 @@ def run(ctx):
             sp['opts']['split'] = '12h'
         specs += co
     specs += typical_day_specs(ctx.seed, 10 if ctx.tier == 'quick' else 60, 'c14td_')
+    # options of optimize() reach every interval: the relaxed ("soft") problem of portfolios with binary variables, split
+    soft = gen.gen_many(ctx.seed, n // 5, dict(CFG, p_coarse=0.0, p_periodic=0.0, p_full_exec=1.0, p_no_simult=0.8, freqs=['h'], tzs=[None], T=(6, 10), p_unaligned_end=0.0,
+                                               kinds={'OrderBook': 3, 'Storage': 2, 'SimpleContract': 2}), 'c14soft_')
+    soft += gen.gen_many_plants(ctx.seed, n // 5, dict(CFG, freqs=['h'], units=['h'], tzs=[None], T=(6, 10), p_unaligned_end=0.0, p_profile=0.0, p_coarse=0.0, p_periodic=0.0, p_window=0.0), 'c14softp_')
+    for sp in soft:
+        sp['opts']['split'] = '3h'
+        sp['opts']['optimize'] = {'make_soft_problem': True}
+    specs += soft
     # rolling use: the same portfolio object was set up on the neighbouring horizon before the split set-up
     roll = gen.gen_many(ctx.seed, n // 4, dict(CFG, tzs=[None], p_unaligned_end=0.0, freqs=['h']), 'c14roll_')
     for k_, sp in enumerate(roll):
